@@ -21,6 +21,7 @@ class ParserSessionProp(object):
     nbest_choices = (1, 1, 1, 2, 3, 5, 8)
     fault_classes = ('none', 'inband', 'outofband')
     need_poplog = False
+    penalty_choices = (0.0, 0.1, 0.1, 1.0, 10.0, -0.5, -2.0)   # the repository accepts any float
     rich_tokens = False
     rule = ''
 
@@ -32,7 +33,7 @@ class ParserSessionProp(object):
             'fault_class': rng.choice(self.fault_classes),
             'n_calls': rng.randint(2, 6),
             'nbest': rng.choice(self.nbest_choices),
-            'unary_penalty': rng.choice([0.0, 0.1, 0.1, 1.0, 10.0]),
+            'unary_penalty': rng.choice(self.penalty_choices),
             'pruning_size': rng.choice([1, 2, 3, 4, 8, 50]),
             'use_beta': rng.random() < 0.3,
             'beta': rng.choice([1e-5, 1e-5, 1e-7]),
